@@ -486,6 +486,73 @@ fn structured(base: &[u8]) -> Vec<Vec<u8>> {
     v
 }
 
+/// Label stacks deeper than the NLRI length octet can describe.  The first label of the message's first labeled / VPN NLRI
+/// (the samples start with label 100, bottom-of-stack: 00 06 41) gets n copies of itself in front of it, without the
+/// bottom-of-stack bit; the enclosing attribute length, the Total Path Attribute Length and the header are repaired, the NLRI's
+/// own length octet is left as it was or set to 255.  Eight labels are 192 bits - with a route distinguisher more than an
+/// octet holds; eleven are 264.
+fn deep_stacks(base: &[u8]) -> Vec<Vec<u8>> {
+    let mut v = Vec::new();
+    if base.len() < 23 || base[18] != 2 {
+        return v;
+    }
+    let wlen = u16::from_be_bytes([base[19], base[20]]) as usize;
+    let tal_at = 21 + wlen;
+    if tal_at + 2 > base.len() {
+        return v;
+    }
+    let alen = u16::from_be_bytes([base[tal_at], base[tal_at + 1]]) as usize;
+    let (a0, end) = (tal_at + 2, tal_at + 2 + alen);
+    if end > base.len() {
+        return v;
+    }
+    let mut i = a0;
+    while i + 3 <= end {
+        let (flags, code) = (base[i], base[i + 1]);
+        let ext = flags & 0x10 != 0;
+        let (vlen, vs) = if ext { (u16::from_be_bytes([base[i + 2], base[i + 3]]) as usize, i + 4) } else { (base[i + 2] as usize, i + 3) };
+        if vs + vlen > end {
+            break;
+        }
+        if code == 14 {
+            if let Some(rel) = base[vs..vs + vlen].windows(3).position(|w| w == [0, 6, 0x41]) {
+                let at = vs + rel;
+                for n in [6usize, 7, 8, 10, 11, 31, 32, 84] {
+                    let grow = 3 * n;
+                    if !ext && vlen + grow > 255 {
+                        continue;
+                    }
+                    if vlen + grow > 65000 || base.len() + grow > 65535 {
+                        continue;
+                    }
+                    for full in [false, true] {
+                        let mut m = base[..at].to_vec();
+                        for _ in 0..n {
+                            m.extend_from_slice(&[0, 6, 0x40]);
+                        }
+                        m.extend_from_slice(&base[at..]);
+                        if full {
+                            m[at - 1] = 0xff;
+                        }
+                        if ext {
+                            m[i + 2..i + 4].copy_from_slice(&((vlen + grow) as u16).to_be_bytes());
+                        } else {
+                            m[i + 2] = (vlen + grow) as u8;
+                        }
+                        m[tal_at..tal_at + 2].copy_from_slice(&((alen + grow) as u16).to_be_bytes());
+                        let l = m.len() as u16;
+                        m[16..18].copy_from_slice(&l.to_be_bytes());
+                        v.push(m);
+                    }
+                }
+            }
+            break;
+        }
+        i = vs + vlen;
+    }
+    v
+}
+
 fn fix_bgp_len(m: &mut Vec<u8>) {
     if m.len() >= 19 {
         let l = m.len() as u16;
@@ -527,6 +594,7 @@ fn sweep(seed: u64, budget: usize, outp: &str) {
                         let proto = format!("bgp/{}/as4={}/addpath={}/ext={}/enh={}", samples::family_name(family), as4, addpath, ext, enh);
                         let mut muts = mutations(&base, &mut rng, budget);
                         muts.extend(structured(&base));
+                        muts.extend(deep_stacks(&base));
                         for mut m in muts {
                             for fix in [false, true] {
                                 if fix {
